@@ -1389,7 +1389,8 @@ OPNMIDI_EXPORT int opn2_setTrackOptions(struct OPN2_MIDIPlayer *device, size_t t
             return -1;
         break;
     case OPNMIDI_TrackOption_Solo:
-        seq.setSoloTrack(trackNumber);
+        if(!seq.setSoloTrack(trackNumber))
+            return -1;
         break;
     }
 
